@@ -1,10 +1,117 @@
 import GeoVerif.Model.Conic
 import GeoVerif.Spec.RealInst
-namespace GeoVerif.Props.C11
-open GeoVerif GeoVerif.Conic
+import GeoVerif.Proofs.Conic
+import Mathlib.Tactic.Ring
+import Mathlib.Tactic.LinearCombination
+import Mathlib.Tactic.FieldSimp
+import Mathlib.Tactic.Positivity
+import Mathlib.Tactic.NormNum
+import Mathlib.Tactic.Linarith
+/-!
+# C11 — polar stereographic, Lambert conformal conic, Albers: exact-real theorems about the formula models
 
-/-- placeholder (replaced below) -/
-theorem mirror_mirror (o : ConeOut ℝ) : mirror (mirror o) = o := by
-  cases o; simp [mirror]
+The definitions are those of `Model/Conic.lean` — the same terms the driver evaluates in binary64 against the
+implementation — read at type `ℝ`.
+-/
+namespace GeoVerif.Props.C11
+open GeoVerif GeoVerif.Conic GeoVerif.Proofs.Conic
+
+/-! ## Hemisphere bookkeeping of the conic classes (for every cone kernel) -/
+
+/-- **Mirror law.**  The hemisphere sign multiplies the latitude once on the way in and `y`, `γ` once on the way
+    out; hence, for *any* northern-cone kernel, the southern cone at the mirrored latitude is the mirror image. -/
+theorem conic_sign_once (core : ℝ → ℝ → ConeOut ℝ) (s lat lam : ℝ) :
+    conicForward core (-s) (-lat) lam = mirror (conicForward core s lat lam) := by
+  simp only [conicForward, mirror, mul_neg, neg_mul, neg_neg]
+
+/-- the same for `Reverse`: `Reverse(−cone)(x, −y)` is `Reverse(cone)(x, y)` with latitude and convergence negated -/
+theorem conic_reverse_mirror (core : ℝ → ℝ → ConeRev ℝ) (s x y : ℝ) :
+    conicReverse core (-s) x (-y) =
+      ⟨-(conicReverse core s x y).lat, (conicReverse core s x y).lon, -(conicReverse core s x y).gamma, (conicReverse core s x y).k⟩ := by
+  simp only [conicReverse, mul_neg, neg_mul, neg_neg]
+
+/-- **The wrapper inverts.**  If the northern kernels are mutually inverse then so are `Forward` and `Reverse` of the
+    class, in either hemisphere (`s = ±1`), with the same convergence and scale. -/
+theorem conic_reverse_forward (coreF : ℝ → ℝ → ConeOut ℝ) (coreR : ℝ → ℝ → ConeRev ℝ) (s lat lam : ℝ) (hs : s * s = 1)
+    (hinv : ∀ p l, coreR (coreF p l).x (coreF p l).y = ⟨p, l, (coreF p l).gamma, (coreF p l).k⟩) :
+    conicReverse coreR s (conicForward coreF s lat lam).x (conicForward coreF s lat lam).y =
+      ⟨lat, lam, (conicForward coreF s lat lam).gamma, (conicForward coreF s lat lam).k⟩ := by
+  simp only [conicForward, conicReverse]
+  have h1 : (coreF (lat * s) lam).y * s * s = (coreF (lat * s) lam).y := by rw [mul_assoc, hs, mul_one]
+  rw [h1, hinv]
+  have h2 : s * (lat * s) = lat := by rw [mul_comm, mul_assoc, hs, mul_one]
+  simp only [h2]
+
+example : ((-1 : ℝ)) * (-1) = 1 := by norm_num   -- the southern sign satisfies the hypothesis
+
+/-- the defect repaired by cf4303d (sign applied twice on the way in) projects the mirror-image latitude for a
+    southern cone: the counter-model is `Forward` at `−lat` -/
+theorem conic_sign_twice_is_mirror_latitude (core : ℝ → ℝ → ConeOut ℝ) (lat lam : ℝ) :
+    conicForwardTwice core (-1) lat lam = conicForward core (-1) (-lat) lam := by
+  simp only [conicForwardTwice, conicForward]
+  norm_num
+
+/-- `Init` sees the same canonical (northern, ordered) parallels for a cone and its mirror image, with opposite
+    signs (parallels not symmetric about the equator; for symmetric ones both signs are `+1` and the cone is a cylinder) -/
+theorem cone_canon_mirror (s1 c1 s2 c2 : ℝ) (h : s1 + s2 ≠ 0) :
+    coneSign (-s1) (-s2) = -coneSign s1 s2 ∧ coneCanon (-s1) c1 (-s2) c2 = coneCanon s1 c1 s2 c2 := by
+  by_cases hp : 0 ≤ s1 + s2
+  · have hn : ¬ (0 ≤ -s1 + -s2) := by
+      intro h'
+      exact h (by linarith)
+    simp [coneCanon, coneSign, leb_real, ltb_real, hp, hn, zero_real, one_real]
+  · have hn : 0 ≤ -s1 + -s2 := by linarith [not_le.mp hp]
+    simp [coneCanon, coneSign, leb_real, ltb_real, hp, hn, zero_real, one_real]
+
+example : (1 / 2 : ℝ) + (3 / 4) ≠ 0 := by norm_num
+
+/-! ## Constructor domains -/
+
+/-- what `sincosd` guarantees on `[-90, 90]` (C16): a valid sine/cosine pair with non-negative cosine -/
+def SincosdRange (sc : ℝ → ℝ × ℝ) : Prop := ∀ l, latOk l = true → sincosOk (sc l).1 (sc l).2 = true
+
+/-- **`ctor_domain_conic` (two-parallel ⇔ sin/cos).**  The degree constructor accepts exactly the parameter sets
+    whose latitudes are in range and whose sines and cosines the sin/cos constructor accepts — for both classes. -/
+theorem ctor_domain_two_vs_sincos (cls : ℕ) (sc : ℝ → ℝ × ℝ) (hsc : SincosdRange sc) (a f l1 l2 k : ℝ) :
+    accept2 cls sc a f l1 l2 k =
+      (latOk l1 && latOk l2 && accept3 cls a f (sc l1).1 (sc l1).2 (sc l2).1 (sc l2).2 k) := by
+  unfold accept2 accept3
+  cases h1 : latOk l1 <;> cases h2 : latOk l2 <;> simp
+  rw [hsc l1 h1, hsc l2 h2]
+  simp
+
+/-- a pair accepted by `sincosOk` never fails the pole rule against itself -/
+theorem polesOk_self (cls : ℕ) (s c : ℝ) (h : sincosOk s c = true) : polesOk cls s c s c = true := by
+  unfold polesOk lccPolesOk albPolesOk
+  by_cases hc : c = 0
+  · have hs : s ≠ 0 := by
+      intro hs
+      simp [sincosOk, hc, hs, zero_real] at h
+    have hss : ¬ (s * s ≤ 0) := by
+      have : 0 < s * s := mul_self_pos.mpr hs
+      linarith
+    simp [hc, hss, zero_real]
+  · simp [hc, zero_real]
+
+/-- **`ctor_domain_conic` (one-parallel ⇔ two equal parallels).** -/
+theorem ctor_domain_one_vs_two (cls : ℕ) (sc : ℝ → ℝ × ℝ) (hsc : SincosdRange sc) (a f l k : ℝ) :
+    accept1 a f l k = accept2 cls sc a f l l k := by
+  unfold accept1 accept2
+  cases h1 : latOk l <;> simp
+  rw [polesOk_self cls _ _ (hsc l h1)]
+  simp
+
+/-- non-vacuity: a `sincosd` that is exact at the pole and at the equator satisfies the range contract -/
+example : SincosdRange (fun l : ℝ => if l = 90 then (1, 0) else (0, 1)) := by
+  intro l _
+  by_cases h1 : l = 90
+  · simp [h1, sincosOk, signbit, zero_real, one_real]
+  · simp [h1, sincosOk, signbit, zero_real, one_real]
+
+/-- LCC rejects a pole paired with a different parallel, Albers rejects opposite poles (the checks 77a6c78 restored) -/
+theorem lcc_rejects_pole_with_other (s2 c2 : ℝ) (h : c2 ≠ 0) : lccPolesOk 1 0 s2 c2 = false := by
+  simp [lccPolesOk, zero_real, h, Ne.symm h]
+theorem albers_rejects_opposite_poles : albPolesOk (1 : ℝ) 0 (-1) 0 = false := by
+  simp [albPolesOk, zero_real]
 
 end GeoVerif.Props.C11
